@@ -77,6 +77,9 @@ CHECKS = {
  'C42': dict(cat='proof', tech='deductive: postconditions over a ghost notification log on the real ControlConnection._refresh_node_list_and_token_map, _is_valid_peer, _update_location_info, Cluster.add_host/remove_host, Metadata host-table methods; row kinds and prior host sets enumerated as symbolic choices',
              text='Every single refresh is verified from an arbitrary prior host set for snapshots of up to 2 (thorough: 3) peer rows of all 8 row kinds; sequences of snapshots follow by composition. The token-change-without-membership-change clause is a recorded known finding.',
              ref='DESIGN.md §4 C42'),
+ 'C44': dict(cat='proof', tech='deductive: postconditions over a ghost log on the real ConnectionHeartbeat.run (one round, loops unrolled over <=2/3 connections), HeartbeatFuture.__init__/wait/_options_callback, Connection.is_idle/reset_idle with symbolic in_flight counts and clock; frame scan of msg_received',
+             text='One heartbeat round is verified for every combination of 9 connection states over up to 2 owners with arbitrary in_flight/max ids and clock readings; Event/clock and send_msg/defunct are assumed contracts. Interval scheduling between rounds is out of scope.',
+             ref='DESIGN.md §4 C44'),
 }
 
 NA_REASON = {}
